@@ -47,6 +47,9 @@ type GenSpec struct {
 	RelaysToTokens        int64    `json:"relays_to_tokens"`
 	MaxApplications       int64    `json:"max_applications"`
 	AppMaxChains          int64    `json:"app_max_chains"`
+	// AppParticipationRateOn: the relay allowance of an application is scaled by (staked tokens of apps and nodes) / supply
+	AppParticipationRateOn bool  `json:"app_participation_rate_on,omitempty"`
+	AppBaseRelaysPerPOKT   int64 `json:"app_base_relays_per_pokt,omitempty"`
 	SessionNodeCount      int64    `json:"session_node_count"`
 	ClaimSubmissionWindow int64    `json:"claim_submission_window"`
 	ClaimExpiration       int64    `json:"claim_expiration"`
@@ -172,6 +175,10 @@ func BuildGenesis(spec GenSpec) app.GenesisState {
 	cdc.MustUnmarshalJSON(gen[appsTypes.ModuleName], &appGen)
 	setI(&appGen.Params.MaxApplications, spec.MaxApplications)
 	setI(&appGen.Params.MaxChains, spec.AppMaxChains)
+	if spec.AppParticipationRateOn {
+		appGen.Params.ParticipationRateOn = true
+	}
+	setI(&appGen.Params.BaseRelaysPerPOKT, spec.AppBaseRelaysPerPOKT)
 	if spec.AppUnstakingSecs != 0 {
 		appGen.Params.UnstakingTime = time.Duration(spec.AppUnstakingSecs) * time.Second
 	}
